@@ -24,6 +24,9 @@ def gen_docs(seed, tier):
         yield "enum-std-other", comps
     for comps in batches(G.enum_texttables(), 48):
         yield "enum-texttable", comps
+    # multiplexers: every declaration order of the cases x every way of selecting a case (switch key filled in by the encoder)
+    for comps in batches(G.enum_mux_orders(), 22):
+        yield "enum-mux-orders", comps
     n = 12000 if big else 1500
     buf = []
     for i in range(n):
@@ -46,6 +49,7 @@ def run_cases(seed, tier, on_case):
     on_case(index, family, comp, value, trig, Res)"""
     import codec_oracles as O
     from odxgen import values as V
+    from odxgen.gen import enum_mux_values as G_enum_mux_values
     vrng = random.Random(f"{seed}/C02/values")
     idx = 0
     for family, comps in gen_docs(seed, tier):
@@ -66,6 +70,11 @@ def run_cases(seed, tier, on_case):
                     vals = []
             elif family == "enum-texttable":
                 vals = [{"x": t, "y": 0xA5} for _, _, t in c.params[1].dop.compu.scales]
+            elif family == "enum-mux-orders":
+                try:
+                    vals = G_enum_mux_values(vrng, c)
+                except Exception:  # noqa
+                    vals = []
             else:
                 vals = []
                 for _ in range(3):
